@@ -49,7 +49,11 @@ TEMPLATED = [
     "name", "id", "group_definition", "left_term", "__root__", "$key", "$$", "${name}", "$args", "$params",
     "lambda: PWNED()", "PWNED()", "PWNED", "__import__", "f'{PWNED()}'", "rb'x'", "None", "True", "partial", "deterministic_choice",
 ]
-ALPHABET = "'\"\\(){}[]+%#,:; nxNu01aPWED\t"
+ALPHABET = "'\"\\(){}[]+%#,:; nxNu01aPWED\t\u00e9"
+# a renderer may pick its escaping routine by the *class* of the string (ASCII or not, printable or not, short or long):
+# every quoting payload is also tried inside such a string
+DECORATIONS = [lambda p: "\u00e9" + p, lambda p: p + "\U0001f600", lambda p: "\u65e5\u672c" + p + "\u00df", lambda p: "\x7f" + p,
+               lambda p: "a" * 200 + p, lambda p: "\x00" + p, lambda p: p + "\u2028", lambda p: "\u00a0" + p]
 
 
 def expressible(s):
@@ -203,6 +207,15 @@ def run(ctx):
     rnd = ctx.rnd
     payloads = [p for p in TEMPLATED if expressible(p)]
     dropped = [p for p in TEMPLATED if not expressible(p)]
+    ntempl = len(payloads)
+    decorated = []
+    for j, p in enumerate(payloads):
+        if any(ch in p for ch in "'\"\\") and "PWNED" in p:
+            decorated.append(DECORATIONS[j % len(DECORATIONS)](p))
+            if not ctx.quick():
+                decorated.append(DECORATIONS[(j + 3) % len(DECORATIONS)](p))
+    payloads += [p for p in decorated if expressible(p)]
+    ctx.note("decorated_payloads", len(decorated))
     ctx.note("templated_payloads_not_expressible", len(dropped))
     nrand = ctx.n(400, 20000)
     for _ in range(nrand):
@@ -216,9 +229,11 @@ def run(ctx):
         for pi, payload in enumerate(payloads):
             for pos, tmpl in POSITIONS.items():
                 idx += 1
-                if pi < len(TEMPLATED) and not ctx.mine(idx):
+                if pi < ntempl + len(decorated) and not ctx.mine(idx):
                     continue
-                if pi >= len(TEMPLATED) and rnd.random() < 0.6:
+                if pi >= ntempl + len(decorated) and rnd.random() < 0.6:
+                    continue
+                if ntempl <= pi < ntempl + len(decorated) and ctx.quick() and pos not in ("salt", "group", "right-operand", "tuple-member", "everywhere"):
                     continue
                 n = NSLOTS.get(pos, 1)
                 text = tmpl([q(payload)] * n)
